@@ -176,6 +176,32 @@ func VerifC08NoTrace() {
 				UpdateExpression: aws.String("SET v.k = :x"), ExpressionAttributeValues: vItem{":x": vS(x)}})
 			return e
 		},
+		func() error { // 14: update that removes the key attribute, after a valid first action
+			_, e := c.UpdateItem(vCtx, &dynamodb.UpdateItemInput{TableName: tbl, Key: vItem{"p": vS(kp)},
+				UpdateExpression: aws.String("SET v = :x REMOVE p"), ExpressionAttributeValues: vItem{":x": vS(x)}})
+			return e
+		},
+		func() error { // 15: update that retypes the key attribute
+			_, e := c.UpdateItem(vCtx, &dynamodb.UpdateItemInput{TableName: tbl, Key: vItem{"p": vS(kp)},
+				UpdateExpression: aws.String("SET v = :x, p = :n"), ExpressionAttributeValues: vItem{":x": vS(x), ":n": vN("1")}})
+			return e
+		},
+		func() error { // 16: batch whose second request is neither a put nor a delete
+			_, e := c.BatchWriteItem(vCtx, &dynamodb.BatchWriteItemInput{RequestItems: map[string][]types.WriteRequest{vTbl: {
+				{PutRequest: &types.PutRequest{Item: vItem{"p": vS(kp), "v": vS(x)}}}, {}}}})
+			return e
+		},
+		func() error { // 17: batch whose second request is both a put and a delete
+			_, e := c.BatchWriteItem(vCtx, &dynamodb.BatchWriteItemInput{RequestItems: map[string][]types.WriteRequest{vTbl: {
+				{DeleteRequest: &types.DeleteRequest{Key: vItem{"p": vS(kp)}}},
+				{PutRequest: &types.PutRequest{Item: vItem{"p": vS("zz")}}, DeleteRequest: &types.DeleteRequest{Key: vItem{"p": vS("zz")}}}}}})
+			return e
+		},
+		func() error { // 18: a true condition, then an update that fails in its second action
+			_, e := c.UpdateItem(vCtx, &dynamodb.UpdateItemInput{TableName: tbl, Key: vItem{"p": vS(kp)},
+				UpdateExpression: aws.String("SET w = :x ADD v :x"), ConditionExpression: aws.String("attribute_not_exists(nosuch)"), ExpressionAttributeValues: vItem{":x": vS(x)}})
+			return e
+		},
 	}
 	which := nd.Choice("request", len(reqs))
 	err, panicked = vCatch(reqs[which])
